@@ -72,3 +72,92 @@ impl fmt::Display for Sexp {
         }
     }
 }
+
+/// Parse one s-expression (the inverse of `Display`). Returns None on malformed input.
+pub fn parse_sexp(s: &str) -> Option<Sexp> {
+    let cs: Vec<char> = s.chars().collect();
+    let mut i = 0;
+    let r = parse_one(&cs, &mut i)?;
+    Some(r)
+}
+
+fn skip_ws(cs: &[char], i: &mut usize) {
+    while *i < cs.len() && matches!(cs[*i], ' ' | '\t' | '\n' | '\r') {
+        *i += 1;
+    }
+}
+
+fn parse_one(cs: &[char], i: &mut usize) -> Option<Sexp> {
+    skip_ws(cs, i);
+    if *i >= cs.len() {
+        return None;
+    }
+    match cs[*i] {
+        '(' => {
+            *i += 1;
+            let mut xs = Vec::new();
+            loop {
+                skip_ws(cs, i);
+                if *i >= cs.len() {
+                    return None;
+                }
+                if cs[*i] == ')' {
+                    *i += 1;
+                    return Some(Sexp::List(xs));
+                }
+                xs.push(parse_one(cs, i)?);
+            }
+        }
+        ')' => None,
+        '"' => {
+            *i += 1;
+            let mut out = String::new();
+            loop {
+                if *i >= cs.len() {
+                    return None;
+                }
+                let c = cs[*i];
+                *i += 1;
+                match c {
+                    '"' => return Some(Sexp::Str(out)),
+                    '\\' => {
+                        let d = *cs.get(*i)?;
+                        *i += 1;
+                        match d {
+                            'n' => out.push('\n'),
+                            'r' => out.push('\r'),
+                            't' => out.push('\t'),
+                            '\\' => out.push('\\'),
+                            '"' => out.push('"'),
+                            'u' => {
+                                if *cs.get(*i)? != '{' {
+                                    return None;
+                                }
+                                *i += 1;
+                                let mut v = 0u32;
+                                loop {
+                                    let h = *cs.get(*i)?;
+                                    *i += 1;
+                                    if h == '}' {
+                                        break;
+                                    }
+                                    v = v * 16 + h.to_digit(16)?;
+                                }
+                                out.push(char::from_u32(v)?);
+                            }
+                            _ => return None,
+                        }
+                    }
+                    c => out.push(c),
+                }
+            }
+        }
+        _ => {
+            let start = *i;
+            while *i < cs.len() && !matches!(cs[*i], ' ' | '(' | ')' | '"' | '\n' | '\t' | '\r') {
+                *i += 1;
+            }
+            Some(Sexp::Atom(cs[start..*i].iter().collect()))
+        }
+    }
+}
